@@ -14,7 +14,8 @@ def run(c):
               "InSyncReplicas, OfflineReplicas, Brokers, Topics, Controller) in random order, metadata v5 and v1; every result compared. "
               "(2) candidates: 1-3 seeds (own listeners or known brokers' addresses) + 1-3 known brokers, each healthy / closed "
               "listener / dropping the connection mid-request, changing per round; constructor + 1-3 RefreshMetadata calls, "
-              "Metadata.Retry.Max 0-2. (3) 3 readers concurrent with 150 alternating full refreshes. Non-trivial: >= 2 responses served "
+              "Metadata.Retry.Max 0-2; 48 further scenarios under Metadata.Timeout = 150 ms with slow-failing candidates (silent for 220 ms, "
+              "then closed) so that the deadline passes during a pass, Retry.Max 0-1, followed by refreshes after recovery. (3) 3 readers concurrent with 150 alternating full refreshes. Non-trivial: >= 2 responses served "
               "and >= 10 calls (histories); >= 1 failing candidate and >= 2 rounds (candidates); both views observed (concurrent)")
     c.trust("correspondence harness go/harness/cmd/c15corr + go/shims/c19_shim.go, c15_shim.go (scripted MockBroker handler, seed order view)")
     c.trust("Coq 8.16.1 kernel + vm_compute (evaluation of the model on the harness cases)")
@@ -23,6 +24,8 @@ def run(c):
             "matching Unlock (writes under the write lock); helpers without locking are called with the write lock held — the premise of c15_atomic")
     c.assume("each critical section of client.go is one atomic step (sync.RWMutex); API reads that refresh on a miss are up to three steps")
     c.assume("map iteration order of client.brokers is an oracle: every order of the known brokers is accepted / quantified over")
+    c.assume("when the metadata deadline passes is an environment event: the correspondence accepts any moment, the monitor states only "
+             "rules that hold for every moment, and a monitor failure of a deadline scenario counts only if the same script fails twice")
     c.assume("SASL / topic-authorization failures (which end a refresh by design) are modelled but not produced by the harness")
     if not c.coq_make():
         return
@@ -38,7 +41,8 @@ def run(c):
         return
     n = 600 if c.tier == "quick" else 6000
     conc = 4 if c.tier == "quick" else 40
-    rc, out = c.run([b, "-out", c.build, "-seed", str(c.seed), "-n", str(n), "-conc", str(conc)], timeout=2400)
+    ndl = 48 if c.tier == "quick" else 480
+    rc, out = c.run([b, "-out", c.build, "-seed", str(c.seed), "-n", str(n), "-conc", str(conc), "-dl", str(ndl)], timeout=2400)
     if rc != 0:
         c.break_("corr", "c15corr harness run failed (a crash here may be a concurrent map access)", out)
         return
